@@ -49,16 +49,18 @@ log = logging.getLogger('chameleon.loader')
 
 
 def cache(func: _F) -> _F:
-    def load(self: Any, *args: Any, **kwargs: Any) -> Any:
+    def load(self: Any, spec: str, cls: Any = None) -> Any:
         # The name is looked up the way it is resolved: without
-        # surrounding whitespace
-        if args and isinstance(args[0], str):
-            args = (args[0].strip(), ) + args[1:]
+        # surrounding whitespace.  Positional and keyword calls share
+        # one registry entry.
+        if isinstance(spec, str):
+            spec = spec.strip()
+        args = (spec, cls)
         template = self.registry.get(args)
         _verif_point("load.lookup", found=template is not None)
         if template is None:
             _verif_point("load.construct")
-            self.registry[args] = template = func(self, *args, **kwargs)
+            self.registry[args] = template = func(self, spec, cls)
             _verif_point("load.registered")
         return template
     return cast('_F', load)
